@@ -122,7 +122,49 @@ PROPS = {
         "assumptions": ["the f64 expression of compute_probe_location is an arbitrary function in the theorems",
                         "sort_unstable_by_key order among equal truncated chunk hashes is canonicalised before comparison"],
     },
+    "C20": {
+        "modules": ["XetProps.C20"],
+        "theorems": [
+            "Xet.Singleflight.C20_one_task",
+            "Xet.Singleflight.C20_runTask_first",
+            "Xet.Singleflight.C20_outcome",
+            "Xet.Singleflight.C20_outcome_same_key",
+            "Xet.Singleflight.C20_keys_separate",
+            "Xet.Singleflight.C20_flight_agrees",
+            "Xet.Singleflight.C20_unique_owner",
+            "Xet.Singleflight.C20_no_lost_wakeup",
+            "Xet.Singleflight.C20_waiter_wakes",
+            "Xet.Singleflight.C20_new_flight",
+            "Xet.Singleflight.C20_no_deadlock",
+            "Xet.Singleflight.C20_runs_bounded",
+            "Xet.Singleflight.C20_progress",
+        ],
+        "suites": ["singleflight"],
+        "level_text": "Theorems for every number of callers and keys, every interleaving of the code's lock regions and every task outcome "
+                      "(ok/err/panic), proved as one inductive invariant over all action sequences of a small-step model of "
+                      "Group::work/get_call_or_create/remove_call, Call::complete/get_future/get and OwnerTask+PinnedDrop: at most one task "
+                      "run per CallId (exactly one once a result exists), every returned caller got exactly its flight's stored outcome "
+                      "(never NoResult/CallMissing), different keys never share a CallId, a completed call has no un-notified registered "
+                      "waiter, a lookup never joins a flight whose owner has run remove_call (fresh CallId otherwise), and every maximal "
+                      "execution is finite and ends with every caller returned (variant + per-caller deadlock freedom). Tied to the Rust "
+                      "Group by trace inclusion: hook-logged event orders of real runs on current-thread, multi-thread and several "
+                      "current-thread runtimes are replayed through the model's step function (including observed created/found, "
+                      "read/registered, returned values).",
+        "design_ref": "DESIGN.md section 4, C20",
+        "technique": "Lean 4 proof (inductive invariant over an interleaving semantics; variant for progress) + trace-inclusion correspondence "
+                     "with seeded schedules and parked narrow windows",
+        "rule": "cases = (runtime ct/mt/multi-ct, 1..7 callers [12 thorough], 1..3 keys, per-caller arrival delay none/yields/sleep/until-N-events/"
+                "wave after k returns, task duration likewise, outcome ok/err/panic, per-(caller,window) park none/sleep/wait-for-N-events/"
+                "thread-yield) + 4 directed window scenarios; distinct by hash(mode, keys, observed event order); non-trivial = some flight "
+                "shared by at least two callers",
+        "assumptions": ["atomicity of the model actions = documented semantics of tokio Mutex, parking_lot RwLock, tokio Notify "
+                        "(a Notified future created before notify_waiters is woken even if not yet polled) and of the tokio task harness "
+                        "(a panicking task's future is dropped before its JoinHandle resolves): modelled, not verified",
+                        "an enabled action is eventually executed (the runtime keeps polling woken tasks); the runtime itself is not modelled",
+                        "cancellation of the owning caller is outside C20's quantifier (F13, observed in the thorough tier, not claimed)",
+                        "outcomes are canonicalised: InternalError(e)/WaiterInternalError(fmt e) -> err e, JoinError/OwnerPanicked -> panic"],
+    },
 }
 
-HOOK_COMMITS = []
+HOOK_COMMITS = ["9bb2102", "a056c58", "25c3aff"]
 NOT_YET = {}
